@@ -329,7 +329,7 @@ func (g *e3gen) stream() []byte {
 		mid++
 		if g.chance(0.2) {
 			sid += uint64(1 + g.pick(3))
-			mid = uint64(1 + g.pick(3))
+			mid = uint64(g.pick(4)) // message id 0 is an id like any other on a later stream
 		} else if g.chance(0.1) {
 			mid += uint64(g.pick(4))
 		}
@@ -345,12 +345,16 @@ func (g *e3gen) stream() []byte {
 		switch g.pick(4) {
 		case 3: // legal but padded (over-long yet valid) varints, payload exactly the maximum
 			g.desc = append(g.desc, "padded-varints")
+			extra := byte(0)
+			if g.chance(0.4) {
+				extra = byte(g.pick(64)) << 1 // bits beyond the 64th: dropped by a 10-byte varint
+			}
 			pad := func(b []byte, v uint64) []byte {
 				for i := 0; i < 9; i++ {
 					b = append(b, byte(v)|0x80)
 					v >>= 7
 				}
-				return append(b, byte(v))
+				return append(b, byte(v)|extra)
 			}
 			n := g.max - g.pick(2)
 			if n < 0 {
@@ -380,7 +384,11 @@ func (g *e3gen) stream() []byte {
 			}
 		case 2: // thousands of tiny packets
 			g.desc = append(g.desc, "tiny-packets")
-			for i := 0; i < 1500; i++ {
+			ntiny := 1500
+			if g.max <= 100 && g.chance(0.3) {
+				ntiny = 20000 // far more bytes than the memory bound: nothing may accumulate
+			}
+			for i := 0; i < ntiny; i++ {
 				b = refAppendFrame(b, RFrame{Stream: sid, Msg: mid, Kind: 2, Done: true, Data: []byte{byte(i)}})
 				mid++
 			}
@@ -588,6 +596,16 @@ func runE3NewToOld(spec RunSpec, ch *Choices, res *RunResult, d *Director) *RunR
 		data := make([]byte, size)
 		for j := 0; j < len(data); j += 97 {
 			data[j] = byte(j + i)
+		}
+		if ch.Bool("gen", 0.2) {
+			// a control packet of a kind the released version does not know, cut with
+			// the current SplitN: the released reader skips every frame of it
+			_ = drpcwire.SplitN(drpcwire.Packet{Data: data, ID: drpcwire.ID{Stream: 1, Message: mid}, Kind: drpcwire.Kind(8 + ch.Pick("gen", 50)), Control: true}, split, func(fr drpcwire.Frame) error {
+				b = drpcwire.AppendFrame(b, fr)
+				return nil
+			})
+			mid++
+			continue
 		}
 		want = append(want, RPacket{Stream: 1, Msg: mid, Kind: kMessage, Data: data})
 		rest := data
